@@ -127,6 +127,7 @@ type rewriter struct {
 	sched   bool
 	changed bool
 	timePkg string
+	selN    int
 }
 
 func (rw *rewriter) calleeFunc(call *ast.CallExpr) *types.Func {
@@ -298,6 +299,35 @@ func (rw *rewriter) rewriteStmt(s ast.Stmt) []ast.Stmt {
 		}
 		if rw.sched {
 			rw.changed = true
+			// Go evaluates every channel operand (and send value) once, in source order, on entering the select;
+			// they are hoisted so that scheduling points inside them come before the select's own point, as in
+			// the engine
+			var pre []ast.Stmt
+			hoist := func(e ast.Expr) ast.Expr {
+				rw.rewriteExpr(e)
+				rw.selN++
+				id := ast.NewIdent(fmt.Sprintf("zzsel%d", rw.selN))
+				pre = append(pre, &ast.AssignStmt{Lhs: []ast.Expr{id}, Tok: token.DEFINE, Rhs: []ast.Expr{e}})
+				return id
+			}
+			for _, c := range st.Body.List {
+				cc := c.(*ast.CommClause)
+				switch comm := cc.Comm.(type) {
+				case *ast.SendStmt:
+					comm.Chan = hoist(comm.Chan)
+					comm.Value = hoist(comm.Value)
+				case *ast.ExprStmt:
+					if u, ok := comm.X.(*ast.UnaryExpr); ok && u.Op == token.ARROW {
+						u.X = hoist(u.X)
+					}
+				case *ast.AssignStmt:
+					if len(comm.Rhs) == 1 {
+						if u, ok := comm.Rhs[0].(*ast.UnaryExpr); ok && u.Op == token.ARROW {
+							u.X = hoist(u.X)
+						}
+					}
+				}
+			}
 			// the engine's choice among several ready cases is forced: one single-case select per recorded choice
 			sw := &ast.SwitchStmt{Tag: schedCall("ZZSchedSelect"), Body: &ast.BlockStmt{}}
 			k := 0
@@ -311,7 +341,7 @@ func (rw *rewriter) rewriteStmt(s ast.Stmt) []ast.Stmt {
 				k++
 			}
 			sw.Body.List = append(sw.Body.List, &ast.CaseClause{Body: []ast.Stmt{st}})
-			return []ast.Stmt{pointStmt(), sw}
+			return []ast.Stmt{&ast.BlockStmt{List: append(append(pre, pointStmt()), sw)}}
 		}
 	case *ast.LabeledStmt:
 		r := rw.rewriteStmt(st.Stmt)
